@@ -17,8 +17,6 @@ Ltac fix_pos :=
   | |- Ok (_, mkP _ ?a) = Ok (_, mkP _ ?b) => replace a with b by (cbn [length] in *; unfold prefix_bits_to_bytes in *; lia); reflexivity
   end.
 
-Lemma take_app' a b pos n : n = length a -> take n (mkP (a ++ b) pos) = Ok (a, mkP b (pos + n)).
-Proof. intros ->. apply take_app. Qed.
 
 Lemma all_zero_repeat l : all_zero l = true -> l = repeat 0 (length l).
 Proof.
